@@ -157,16 +157,16 @@ type InnerPlan struct {
 
 // PlanOpts steer the generator.
 type PlanOpts struct {
-	NOuterOpaque int // opaque outer extensions
-	NInnerOpaque int
-	MaxExtLen    int
-	Padding      int
-	SIDLen       int // outer session id length (0,1..32)
-	RefMask      uint64 // which of the shareable outer extensions are referenced (bit i = i-th shareable)
-	MarkerPos    int    // position of the marker among inner extensions (clamped); -1 = no marker
-	InnerName    string
-	ALPN         []string
-	PublicName   string
+	NOuterOpaque     int // opaque outer extensions
+	NInnerOpaque     int
+	MaxExtLen        int
+	Padding          int
+	SIDLen           int    // outer session id length (0,1..32)
+	RefMask          uint64 // which of the shareable outer extensions are referenced (bit i = i-th shareable)
+	MarkerPos        int    // position of the marker among inner extensions (clamped); -1 = no marker
+	InnerName        string
+	ALPN             []string
+	PublicName       string
 	RefOuterVersions bool // reference the outer supported_versions instead of carrying an own one
 }
 
